@@ -210,7 +210,8 @@ func runC08(c *Ctx) {
 	// matches oldest first and STOPS at the first file it cannot remove — carrying on would delete
 	// newer files behind an older one that stays
 	if fn := c.Fn("C08.retention", PkgRoot, "FileSink", "pruneFiles"); fn != nil {
-		c.errorFlowRule("C08.retention", fn, nil, false)
+		c.errorFlowRule("C08.retention", fn, fileSinkErrExceptions, false)
+		c.ruleReadDirClassified("C08.retention")
 	}
 	c.rulePartialWrite()
 	c.ruleFileReopen("C08.reopen")
@@ -964,6 +965,76 @@ func structTagGet(tag, key string) string {
 var fileSinkErrExceptions = []ErrException{
 	{Fn: "(*eventlogger.FileSink).reopen", Callee: "os.Stat",
 		Reason: "the error is only classified with os.IsNotExist (externally renamed/removed file -> open a new one); every other outcome falls through to Close + open, whose errors are returned"},
+	{Fn: "(*eventlogger.FileSink).pruneFiles", Callee: "os.ReadDir",
+		Reason: "a directory that does not exist holds no rotated files (open creates it again on demand): os.IsNotExist -> nil, every other error is returned (re-checked structurally: pruneFiles->os.ReadDir:exception-shape)"},
+}
+
+// ruleReadDirClassified (C15.errors / C08.retention pruneFiles->os.ReadDir:exception-shape, F54):
+// the error of the directory listing is returned unless os.IsNotExist found it to mean "no such
+// directory", in which case pruning has nothing to do (returns nil): the rotation goes on and
+// open() creates the directory again. Both halves are obligations — an unclassified error fails
+// every rotation after the directory was removed (the glob it replaced found nothing and went on);
+// a nil return for any OTHER error would hide a listing failure and skip retention.
+func (c *Ctx) ruleReadDirClassified(rule string) {
+	p, r := c.P, c.R
+	fn := c.Fn(rule, PkgRoot, "FileSink", "pruneFiles")
+	if fn == nil {
+		return
+	}
+	var rd *ssa.Call
+	for _, cs := range callsTo(fn, func(n string, cc *ssa.CallCommon) bool { return n == "os.ReadDir" }) {
+		if cl, ok := cs.(*ssa.Call); ok {
+			rd = cl
+		}
+	}
+	if rd == nil {
+		return // a glob-based listing reports no error for a missing directory
+	}
+	sawNotExistNil, sawOtherErr, bad := false, false, ""
+	for _, pa := range c.enum(rule, fn, PathOpts{}) {
+		rv := pa.RetVals()
+		if len(rv) != 1 {
+			continue
+		}
+		// paths on which the listing failed
+		failed := false
+		for _, at := range pa.Atoms {
+			if at.Op == "eq" && at.Neg && at.R.Is("Const", "nil") && at.L.Op == "Extract" && at.L.Name == "1" && len(at.L.Args) == 1 && at.L.Args[0].V == ssa.Value(rd) {
+				failed = true
+			}
+		}
+		notExist, found := hasAtom(pa, func(at Atom) bool {
+			return at.Op == "true" && at.L.Is("Call", "os.IsNotExist") && len(at.L.Args) == 1 && at.L.Args[0].Op == "Extract" && at.L.Args[0].Args[0].V == ssa.Value(rd)
+		})
+		if found && notExist {
+			failed = true // os.IsNotExist(err) implies err != nil, whichever test comes first
+		}
+		if !failed {
+			continue
+		}
+		if isNilConst(rv[0]) {
+			if found && notExist {
+				sawNotExistNil = true
+			} else if bad == "" {
+				bad = "pruneFiles returns nil although the directory listing failed with an error that was not found to mean 'no such directory' (" + p.InstrPos(pa.End) + ")"
+			}
+		} else {
+			if found && notExist {
+				if bad == "" {
+					bad = "a listing that failed because the directory does not exist fails the rotation (" + p.InstrPos(pa.End) + "): after the sink's directory was removed every due rotation, and the write that triggered it, fails although open() would create the directory again — the glob this listing replaced found nothing and went on"
+				}
+			} else {
+				sawOtherErr = true
+			}
+		}
+	}
+	if bad == "" && !sawNotExistNil {
+		bad = "the error of os.ReadDir is never classified with os.IsNotExist: after the sink's directory was removed every due rotation, and the write that triggered it, fails although open() would create the directory again (the glob this listing replaced found nothing and went on)"
+	}
+	if bad == "" && !sawOtherErr {
+		bad = "no path returns the listing's error"
+	}
+	r.Check(bad == "", rule, "pruneFiles->os.ReadDir:exception-shape", p.InstrPos(rd), "a missing directory is nothing to prune (nil), every other listing error is returned", bad)
 }
 
 func runC15(c *Ctx) {
@@ -1005,6 +1076,7 @@ func runC15(c *Ctx) {
 			r.Check(ok, "C15.errors", "(*eventlogger.FileSink).reopen->os.Stat:exception-shape", p.InstrPos(cs), "the Stat error is consumed by os.IsNotExist only (file gone -> re-open; anything else -> close and re-open)", "the exempted os.Stat error is no longer consumed by os.IsNotExist alone")
 		}
 	}
+	c.ruleReadDirClassified("C15.errors")
 	c.ruleNamePattern()
 	c.ruleRotatedName()
 	// --- C15.trigger
@@ -1406,7 +1478,7 @@ func runC15(c *Ctx) {
 		for _, rd := range callsTo(fn, func(n string, cc *ssa.CallCommon) bool { return n == "os.ReadDir" }) {
 			dt := tb.Of(rd.Common().Args[0])
 			r.Check(isActiveFileDir(dt), "C15.prune", "pruneFiles:listing-dir", p.InstrPos(rd), "the directory listed for pruning is the one the active file lives in (Path joined with FileName's directory part)",
-				"pruning lists "+shortStr(dt.String(), 80)+", not the directory of the active file (Dir(Join(Path, FileName))): with a FileName that carries a directory part the rotated files are never found and MaxFiles is never enforced")
+				"pruning lists "+shortStr(dt.String(), 80)+", not the directory the rotated files are created in (Join(Path, Dir(FileName)), or the Dir of Path joined with a name made from the pattern): with a FileName that carries a directory part — or an empty one, for which Dir(Join(Path, FileName)) is the PARENT of Path — the rotated files are never found and MaxFiles is never enforced")
 		}
 		if len(rm) != 1 || len(srt) != 1 {
 			r.Bad("C15.prune", "pruneFiles:calls", p.Pos(fn.Pos()), "pruneFiles does not contain exactly one os.Remove and one sort.Strings")
